@@ -3,6 +3,7 @@ package props
 import (
 	"bytes"
 	"fmt"
+	"strings"
 
 	"github.com/veraison/psatoken"
 
@@ -10,6 +11,7 @@ import (
 	"verif/harness/model"
 	"verif/harness/mon"
 	"verif/harness/obs"
+	"verif/harness/refcbor"
 )
 
 func init() { register("C11", runC11) }
@@ -224,8 +226,15 @@ func c11Literal(p int, canon string) psatoken.IClaims {
 	return &psatoken.P2Claims{CanonicalProfile: canon}
 }
 
+func diagOr(n *refcbor.Node) string {
+	if n == nil {
+		return "<unreadable>"
+	}
+	return trunc(n.Diag(), 300)
+}
+
 func runC11(c *mon.Ctx) {
-	c.Rule("histories = random sequences of 1..40 setter calls (all 9 setters of both profiles, values drawn from the C01 classes incl. every byte length 0..80 and lengths congruent to the legal ones modulo 2^8 / 2^16, valid and invalid interleaved, repeats) on a NewClaims object (or, one history in five, a zero-value struct literal without container) of either base profile or (a third of the histories) of the registered extension profile embedding it; after EVERY call the full observation (Validate + 10 getters + component getters) is compared with a last-successful-write-wins model, a refused call must also leave both encodings byte-identical, the setter must accept iff the reference predicate accepts; at the end the same final values are replayed once each in shuffled order on a fresh object and both encodings must be byte-identical. Also single calls: every setter x every length 0..80 (and the congruent lengths). distinct_nontrivial = distinct (profile, setter, value-class, accepted?) + distinct history signatures")
+	c.Rule("histories = random sequences of 1..40 setter calls (all 9 setters of both profiles, values drawn from the C01 classes incl. every byte length 0..80 and lengths congruent to the legal ones modulo 2^8 / 2^16, valid and invalid interleaved, repeats) on a NewClaims object (or, one history in five, a zero-value struct literal without container) of either base profile or (a third of the histories) of the registered extension profile embedding it; after EVERY call the full observation (Validate + 10 getters + component getters) is compared with a last-successful-write-wins model, a refused call must also leave both encodings byte-identical, the setter must accept iff the reference predicate accepts; at the end the same final values are replayed once each in shuffled order on a fresh object and both encodings must be byte-identical. Also histories of 1..12 calls of the software component's own five setters on one component (every field compared with the model after every call) and histories of Add / Replace calls on the component container itself (valid and invalid lists; all-or-nothing, content compared through its CBOR form). Also single calls: every setter x every length 0..80 (and the congruent lengths). distinct_nontrivial = distinct (profile, setter, value-class, accepted?) + distinct history signatures")
 	g := model.NewGen(c.Seed*7001 + int64(c.Shard))
 	nh := c.N(30000, 1500000)
 	if err := extprof.Register(extprof.ExtP2Name, extprof.ExtP1Name); err != nil {
@@ -360,6 +369,131 @@ func runC11(c *mon.Ctx) {
 		}
 		c.Count("order-independence-checks")
 	}
+	// ---- the software component's own setters: histories on ONE component
+	for h := 0; h < c.N(20000, 600000); h++ {
+		sc := &psatoken.SwComponent{}
+		var m model.Comp
+		var trace []string
+		for i, l := 0, 1+g.R.Intn(12); i < l; i++ {
+			var name string
+			var serr error
+			accept := true
+			var apply func()
+			switch g.R.Intn(5) {
+			case 0:
+				v := g.Text()
+				name, serr, apply = "SetMeasurementType", sc.SetMeasurementType(v), func() { m.MType = model.SP(v) }
+			case 1:
+				v := g.Text()
+				name, serr, apply = "SetVersion", sc.SetVersion(v), func() { m.Version = model.SP(v) }
+			case 2:
+				v := g.Text()
+				name, serr, apply = "SetMeasurementDesc", sc.SetMeasurementDesc(v), func() { m.Desc = model.SP(v) }
+			case 3:
+				lens := model.SweepLens()
+				n := lens[g.R.Intn(len(lens))]
+				if g.R.Intn(2) == 0 {
+					n = g.HashLen()
+				}
+				v := g.Bytes(n)
+				accept = n == 32 || n == 48 || n == 64
+				name, serr, apply = fmt.Sprintf("SetMeasurementValue(len%d)", n), sc.SetMeasurementValue(append([]byte{}, v...)), func() { m.MVal = model.BP(v) }
+			default:
+				lens := model.SweepLens()
+				n := lens[g.R.Intn(len(lens))]
+				if g.R.Intn(2) == 0 {
+					n = g.HashLen()
+				}
+				v := g.Bytes(n)
+				accept = n == 32 || n == 48 || n == 64
+				name, serr, apply = fmt.Sprintf("SetSignerID(len%d)", n), sc.SetSignerID(append([]byte{}, v...)), func() { m.Signer = model.BP(v) }
+			}
+			c.Eval()
+			c.Count("component-setter-calls")
+			trace = append(trace, fmt.Sprintf("%s->%v", name, serr == nil))
+			base := strings.SplitN(name, "(", 2)[0]
+			if (serr == nil) != accept {
+				c.Violation("C11/component/"+base+"/accept-mismatch", fmt.Sprintf("%s returned %v, validation accepts=%v", name, serr, accept), map[string]any{"trace": trace})
+				break
+			}
+			if serr == nil {
+				apply()
+			}
+			wr, _ := model.CompExpect(&m)
+			want := model.CompString(wr[0], wr[1], wr[2], wr[3], wr[4])
+			if got := obs.ObserveComp(sc); got != want {
+				kind := "state-after-success"
+				if serr != nil {
+					kind = "changed-after-failure"
+				}
+				c.Violation("C11/component/"+base+"/"+kind, fmt.Sprintf("component after %s: want %s, got %s (no other field may change)", name, want, got), map[string]any{"trace": trace})
+				break
+			}
+			c.Sig("component|" + base + fmt.Sprint(serr == nil))
+		}
+	}
+	// ---- the component container's own Add / Replace (convert-all-then-swap)
+	for h := 0; h < c.N(10000, 300000); h++ {
+		ct := &psatoken.SwComponents[*psatoken.SwComponent]{}
+		var held []model.Comp
+		var trace []string
+		for i, l := 0, 1+g.R.Intn(6); i < l; i++ {
+			n := g.R.Intn(4)
+			var list []model.Comp
+			valid := true
+			for j := 0; j < n; j++ {
+				code := [5]int{g.R.Intn(2), 1, g.R.Intn(2), 1, g.R.Intn(2)}
+				if g.R.Intn(4) == 0 {
+					code[1], code[3] = g.R.Intn(3), g.R.Intn(3)
+				}
+				cp := g.CompFromCode(code)
+				if _, v := model.CompExpect(&cp); v != model.OK {
+					valid = false
+				}
+				list = append(list, cp)
+			}
+			var vals []psatoken.ISwComponent
+			for j := range list {
+				vals = append(vals, obs.RealComp(&list[j]))
+			}
+			op := "Add"
+			var err error
+			if g.R.Intn(3) == 0 {
+				op = "Replace"
+				err = ct.Replace(vals)
+			} else {
+				err = ct.Add(vals...)
+			}
+			c.Eval()
+			c.Count("container-calls:" + op)
+			trace = append(trace, fmt.Sprintf("%s(%d comps, all valid=%v)->%v", op, n, valid, err == nil))
+			if (err == nil) != valid {
+				c.Violation("C11/container/"+op+"/accept-mismatch", fmt.Sprintf("%s of a list whose components are all valid=%v returned %v", op, valid, err), map[string]any{"trace": trace})
+				break
+			}
+			if err == nil {
+				if op == "Replace" {
+					held = append([]model.Comp{}, list...)
+				} else {
+					held = append(held, list...)
+				}
+			}
+			// content after the call: through the CBOR form of the container
+			wantEnc := refcbor.Encode(model.CompsNode(held))
+			gotEnc, merr := ct.MarshalCBOR()
+			want, _ := refcbor.DecodeAll(wantEnc)
+			got, derr := refcbor.DecodeAll(gotEnc)
+			if merr != nil || derr != nil || !refcbor.Equal(want, got) || ct.IsEmpty() != (len(held) == 0) {
+				kind := "state-after-success"
+				if err != nil {
+					kind = "changed-after-failure"
+				}
+				c.Violation("C11/container/"+op+"/"+kind, fmt.Sprintf("container after %s holds %s, expected %s", op, diagOr(got), diagOr(want)), map[string]any{"trace": trace})
+				break
+			}
+			c.Sig("container|" + op + fmt.Sprint(err == nil, n))
+		}
+	}
 	// single calls: every byte setter x every length
 	idx := 0
 	for pi := 0; pi < 4; pi++ {
@@ -400,6 +534,8 @@ func runC11(c *mon.Ctx) {
 	c.Floor("histories-on:"+extprof.ExtP1Name, 200)
 	c.Floor("histories-on:"+extprof.ExtP2Name, 200)
 	c.Floor("histories-from-struct-literal", 200)
+	c.Floor("component-setter-calls", 5000)
+	c.Floor("container-calls:Add", 1000)
 	c.Floor("accepted", 1000)
 	c.Floor("refused", 1000)
 	c.Floor("complete-valid-states", 100)
